@@ -457,8 +457,8 @@ func c01EndPaths(c *core.Ctx, rule string, withR7 bool) {
 			}
 			if lkOK && len(path) == 1 && path[0] == "rnode" {
 				// dominates the accepted response
-				for _, s := range core.Calls(fn, sendRsp) {
-					if core.InstrDominates(ci.(ssa.Instruction), s.(ssa.Instruction)) {
+				for _, s := range p.CallsThrough(fn, sendRsp, 2) {
+					if core.InstrDominates(ci.(ssa.Instruction), s.Site.(ssa.Instruction)) {
 						good = true
 					}
 				}
